@@ -71,11 +71,73 @@ Proof. intros H. unfold I_lifecycle. rewrite H. reflexivity. Qed.
 (* ------------------------------------------------------------------------------------------- *)
 (* 2. every per-segment amount = index * fuel burned in that segment                              *)
 (* ------------------------------------------------------------------------------------------- *)
-Definition oracle_lengths (x : inputsR) : Prop :=
-  forall s l, lookup s (i_orc_traj x) = Some l -> length l = length (i_fm x).
+Definition aug_lengths (x : inputsR) : Prop :=
+  forall s l, lookup s (I_orc x) = Some l -> length l = length (i_fm x).
 
-Lemma traj_idx_raw_length (x : inputsR) s l : oracle_lengths x ->
-  traj_idx_raw (i_cfg x) (i_fuel x) (length (i_fm x)) (i_orc_traj x) s = Some l -> length l = length (i_fm x).
+(* the hypothesis on the raw inputs: every EI-method array, and the SLS fuel-flow array, has one entry per point *)
+Definition oracle_lengths (x : inputsR) : Prop :=
+  (forall s l, lookup s (i_orc_traj x) = Some l -> length l = length (i_fm x))
+  /\ length (i_sls x) = length (i_fm x).
+
+Notation Rpart := (@bffm2_part RNum).
+
+Lemma species_eqb_eq a b : species_eqb a b = true -> a = b.
+Proof. destruct a, b; cbn; intros H; try reflexivity; discriminate H. Qed.
+
+Lemma lookup_strip (orc : list (species * list R)) s :
+  lookup s (@strip_parts RNum orc) = if is_part s then None else lookup s orc.
+Proof.
+  induction orc as [|[k v] r IH]; [destruct (is_part s); reflexivity|].
+  unfold strip_parts in *. cbn [filter fst]. destruct (is_part k) eqn:Ek; cbn [negb lookup].
+  - rewrite IH. destruct (species_eqb s k) eqn:E; [|reflexivity].
+    apply species_eqb_eq in E. subst. rewrite Ek. reflexivity.
+  - rewrite IH. destruct (species_eqb s k) eqn:E; [|reflexivity].
+    apply species_eqb_eq in E. subst. rewrite Ek. reflexivity.
+Qed.
+
+Lemma lookup_aug (ffc : tmvR) (sls : list R) (orc : list (species * list R)) s :
+  lookup s (aug_orc ffc sls orc) =
+  match s with
+  | NO => option_map (fun nx => Rpart ffc sp_no nx sls) (lookup NOx orc)
+  | NO2 => option_map (fun nx => Rpart ffc sp_no2 nx sls) (lookup NOx orc)
+  | HONO => option_map (fun nx => Rpart ffc sp_hono nx sls) (lookup NOx orc)
+  | _ => lookup s orc
+  end.
+Proof.
+  unfold aug_orc. change (T RNum) with R.
+  destruct (lookup NOx orc) as [nx|] eqn:E.
+  - destruct s; cbn [lookup species_eqb option_map]; try reflexivity; rewrite lookup_strip; try reflexivity.
+  - destruct s; cbn [option_map]; rewrite lookup_strip; reflexivity.
+Qed.
+
+Lemma part_length ffc sp (nx sls : list R) : length nx = length sls -> length (Rpart ffc sp nx sls) = length nx.
+Proof. intros H. unfold bffm2_part. apply map2_length. rewrite map_length. exact H. Qed.
+
+Lemma aug_lengths_of (x : inputsR) : oracle_lengths x -> aug_lengths x.
+Proof.
+  intros [HO HS] s l. unfold I_orc. rewrite lookup_aug.
+  destruct s; try apply HO;
+    (match goal with |- context [option_map _ ?q] => destruct q as [nx0|] eqn:E end; cbn [option_map]; intros K; [|discriminate K];
+     inversion K; subst; rewrite part_length;
+     match goal with E' : lookup NOx _ = Some ?n |- _ => pose proof (HO NOx n E') end; cbv [T RNum] in *; congruence).
+Qed.
+
+Lemma nth_map_lt {A} (f : A -> R) (l : list A) d i : (i < length l)%nat -> nth i (map f l) 0 = f (nth i l d).
+Proof. intros H. rewrite (nth_indep _ 0 (f d)) by (rewrite map_length; exact H). apply map_nth. Qed.
+
+(* per point, a BFFM2 part is NOx times the fraction of the point's thrust category *)
+Lemma nth_part ffc sp (nx sls : list R) i : length nx = length sls ->
+  nth i (Rpart ffc sp nx sls) 0 =
+  if (i <? length nx)%nat then nth i nx 0 * tm_get (thrust_cat ffc (nth i sls 0)) sp else 0.
+Proof.
+  intros H. unfold bffm2_part. rewrite nth_map2_mul by (rewrite map_length; exact H).
+  destruct (i <? length nx)%nat eqn:E.
+  - apply Nat.ltb_lt in E. rewrite (nth_map_lt _ sls 0) by lia. reflexivity.
+  - apply Nat.ltb_ge in E. rewrite (nth_overflow nx) by exact E. rl.
+Qed.
+
+Lemma traj_idx_raw_length (x : inputsR) s l : aug_lengths x ->
+  traj_idx_raw (i_cfg x) (i_fuel x) (length (i_fm x)) (I_orc x) s = Some l -> length l = length (i_fm x).
 Proof.
   intros HO. unfold traj_idx_raw.
   destruct (const_has _ s).
@@ -83,7 +145,7 @@ Proof.
   - destruct (traj_var_has _ s); [|discriminate]. apply HO.
 Qed.
 
-Theorem segment_eq_index_times_fuel (x : inputsR) (s : species) : oracle_lengths x ->
+Theorem segment_eq_index_times_fuel (x : inputsR) (s : species) : aug_lengths x ->
   forall i, nth i (gl (I_traj_em x s)) 0 = nth i (gl (I_traj_idx x s)) 0 * nth i (Rfuel_burn (i_fm x)) 0.
 Proof.
   intros HO i. unfold I_traj_em, I_traj_idx, traj_em, traj_idx, traj_em_raw.
@@ -103,7 +165,7 @@ Proof.
 Qed.
 
 Theorem traj_zero_outside_window (x : inputsR) s i :
-  in_window (win_start (i_cfg x) (i_ncl x)) (win_stop (i_cfg x) (length (i_fm x)) (i_nde x)) i = false ->
+  in_window (win_start (i_cfg x) (length (i_fm x)) (i_ncl x)) (win_stop (i_cfg x) (length (i_fm x)) (i_nde x)) i = false ->
   nth i (gl (I_traj_em x s)) 0 = 0 /\ nth i (gl (I_traj_idx x s)) 0 = 0.
 Proof.
   intros W. unfold I_traj_em, I_traj_idx, traj_em, traj_idx, traj_em_raw.
@@ -131,7 +193,7 @@ Proof.
 Qed.
 
 Lemma traj_fuel_is_window_sum (x : inputsR) :
-  I_traj_fuel x = Rsum (Rslice (win_start (i_cfg x) (i_ncl x)) (win_stop (i_cfg x) (length (i_fm x)) (i_nde x))
+  I_traj_fuel x = Rsum (Rslice (win_start (i_cfg x) (length (i_fm x)) (i_ncl x)) (win_stop (i_cfg x) (length (i_fm x)) (i_nde x))
                                (Rfuel_burn (i_fm x))).
 Proof. reflexivity. Qed.
 
@@ -196,10 +258,17 @@ Proof.
   - rewrite lto_fuel_value, M. reflexivity.
 Qed.
 
-(* lto accounting: the trajectory contributes exactly the fuel-mass drop over the window
-   [n_climb, n - n_descent); climb-out and approach come from the full LTO cycle *)
+(* Python slice-bound normalisation stays inside the sequence, and is the identity on ordinary bounds *)
+Lemma norm_bound_le n k : (norm_bound n k <= n)%nat.
+Proof. unfold norm_bound. destruct (k <? 0)%Z eqn:E; [apply Z.ltb_lt in E|]; lia. Qed.
+Lemma norm_bound_ordinary n k : (0 <= k <= Z.of_nat n)%Z -> norm_bound n k = Z.to_nat k.
+Proof. intros H. unfold norm_bound. destruct (k <? 0)%Z eqn:E; [apply Z.ltb_lt in E|]; lia. Qed.
+
+(* lto accounting, ANY integer phase counts: the trajectory contributes exactly the fuel-mass drop over the
+   window [a, b) = the Python slice [n_climb : n - n_descent]; climb-out and approach come from the full LTO cycle *)
 Theorem fuel_counted_once_lto_mode (x : inputsR) : cd (i_cfg x) = CD_LTO ->
-  let n := length (i_fm x) in let a := i_ncl x in let b := (n - i_nde x)%nat in
+  let n := length (i_fm x) in
+  let a := norm_bound n (i_ncl x) in let b := norm_bound n (Z.of_nat n - i_nde x) in
   (a <= b)%nat -> (1 <= b)%nat ->
   I_traj_fuel x = nth (Nat.pred (Nat.max a 1)) (i_fm x) 0 - nth (Nat.pred b) (i_fm x) 0
   /\ I_lto_fuel x = 1560 * tm_idle (l_ff (i_lto x)) + 240 * tm_approach (l_ff (i_lto x))
@@ -207,14 +276,30 @@ Theorem fuel_counted_once_lto_mode (x : inputsR) : cd (i_cfg x) = CD_LTO ->
 Proof.
   intros M n a b Hab Hb. split.
   - rewrite traj_fuel_is_window_sum. unfold win_start, win_stop. rewrite M.
-    apply window_fuel_telescopes; subst n a b; lia.
+    apply window_fuel_telescopes; subst n a b; try assumption. apply norm_bound_le.
   - rewrite lto_fuel_value, M. reflexivity.
 Qed.
 
-Theorem lto_mode_empty_window (x : inputsR) : cd (i_cfg x) = CD_LTO ->
-  (length (i_fm x) - i_nde x <= i_ncl x)%nat -> I_traj_fuel x = 0.
+(* the ordinary case: 0 <= n_climb, 0 <= n_descent, n_climb + n_descent <= n *)
+Corollary fuel_counted_once_lto_mode_ordinary (x : inputsR) : cd (i_cfg x) = CD_LTO ->
+  let n := length (i_fm x) in
+  (0 <= i_ncl x)%Z -> (0 <= i_nde x)%Z -> (i_ncl x + i_nde x <= Z.of_nat n)%Z -> (i_nde x < Z.of_nat n)%Z ->
+  I_traj_fuel x = nth (Nat.pred (Nat.max (Z.to_nat (i_ncl x)) 1)) (i_fm x) 0
+                  - nth (Nat.pred (n - Z.to_nat (i_nde x))) (i_fm x) 0.
 Proof.
-  intros M H. rewrite traj_fuel_is_window_sum. unfold win_start, win_stop. rewrite M.
+  intros M n H1 H2 H3 H4.
+  destruct (fuel_counted_once_lto_mode x M) as [E _]; fold n.
+  - rewrite !norm_bound_ordinary by lia. lia.
+  - rewrite norm_bound_ordinary by lia. lia.
+  - fold n in E. rewrite !norm_bound_ordinary in E by lia. rewrite E.
+    replace (Z.to_nat (Z.of_nat n - i_nde x)) with (n - Z.to_nat (i_nde x))%nat by lia. reflexivity.
+Qed.
+
+Theorem lto_mode_empty_window (x : inputsR) : cd (i_cfg x) = CD_LTO ->
+  let n := length (i_fm x) in
+  (norm_bound n (Z.of_nat n - i_nde x) <= norm_bound n (i_ncl x))%nat -> I_traj_fuel x = 0.
+Proof.
+  intros M n H. rewrite traj_fuel_is_window_sum. unfold win_start, win_stop. rewrite M.
   apply empty_window_fuel. exact H.
 Qed.
 
@@ -299,13 +384,13 @@ Qed.
 (* trajectory: the EI method supplies NOx and its three parts per point (property C12); if they close
    per point, the windowed indices and the amounts close per point as well *)
 Lemma traj_idx_raw_nox (x : inputsR) s : s = NOx \/ s = NO \/ s = NO2 \/ s = HONO ->
-  traj_idx_raw (i_cfg x) (i_fuel x) (length (i_fm x)) (i_orc_traj x) s
-  = if traj_var_has (i_cfg x) NOx then lookup s (i_orc_traj x) else None.
+  traj_idx_raw (i_cfg x) (i_fuel x) (length (i_fm x)) (I_orc x) s
+  = if traj_var_has (i_cfg x) NOx then lookup s (I_orc x) else None.
 Proof. intros [->|[->|[->| ->]]]; reflexivity. Qed.
 
-Theorem nox_speciation_traj (x : inputsR) nx no n2 ho : oracle_lengths x ->
-  lookup NOx (i_orc_traj x) = Some nx -> lookup NO (i_orc_traj x) = Some no ->
-  lookup NO2 (i_orc_traj x) = Some n2 -> lookup HONO (i_orc_traj x) = Some ho ->
+Theorem nox_speciation_traj (x : inputsR) nx no n2 ho : aug_lengths x ->
+  lookup NOx (I_orc x) = Some nx -> lookup NO (I_orc x) = Some no ->
+  lookup NO2 (I_orc x) = Some n2 -> lookup HONO (I_orc x) = Some ho ->
   (forall i, nth i no 0 + nth i n2 0 + nth i ho 0 = nth i nx 0) ->
   forall i,
     nth i (gl (I_traj_idx x NO)) 0 + nth i (gl (I_traj_idx x NO2)) 0 + nth i (gl (I_traj_idx x HONO)) 0
@@ -433,6 +518,26 @@ Proof.
   rnum. repeat split; lra.
 Qed.
 
+Lemma tm_get_nonneg m (v : tmvR) : tm_nonneg v -> 0 <= tm_get m v.
+Proof. dtm v. unfold tm_nonneg. intros (?&?&?&?). destruct m; cbn; assumption. Qed.
+
+(* the derived NO / NO2 / HONO arrays inherit non-negativity from the NOx array *)
+Lemma nn_orc_aug (x : inputsR) : nonneg_inputs x ->
+  forall s l i, lookup s (I_orc x) = Some l -> 0 <= nth i l 0.
+Proof.
+  intros H s l i. destruct speciation_nonneg as (N1 & N2 & N3). destruct (nn_len x H) as [HO HS].
+  unfold I_orc. rewrite lookup_aug.
+  assert (P : forall sp nx, lookup NOx (i_orc_traj x) = Some nx -> tm_nonneg sp ->
+                            0 <= nth i (Rpart (l_ff (i_lto x)) sp nx (i_sls x)) 0).
+  { intros sp nx E Hsp. pose proof (HO NOx nx E) as Ln. pose proof (nn_orc x H NOx nx i E) as Pn.
+    rewrite nth_part by (cbv [T RNum] in *; congruence).
+    match goal with |- context [if ?b then _ else _] => destruct b end; [|rl].
+    apply Rmult_le_pos; [exact Pn|apply tm_get_nonneg, Hsp]. }
+  destruct s; try apply (nn_orc x H);
+    (match goal with |- context [option_map _ ?q] => destruct q as [nx0|] eqn:E end; cbn [option_map]; intros K; [|discriminate K];
+     inversion K; subst; eapply P; [exact E|assumption]).
+Qed.
+
 Lemma tm_nonneg_mul (a b : tmvR) : tm_nonneg a -> tm_nonneg b -> tm_nonneg (tm_mul a b).
 Proof.
   dtm a; dtm b. unfold tm_nonneg, tm_mul. intros (?&?&?&?) (?&?&?&?). rnum.
@@ -483,15 +588,15 @@ Qed.
 
 Theorem traj_amounts_nonneg (x : inputsR) s i : nonneg_inputs x -> 0 <= nth i (gl (I_traj_em x s)) 0.
 Proof.
-  intros H. rewrite (segment_eq_index_times_fuel x s (nn_len x H)).
+  intros H. rewrite (segment_eq_index_times_fuel x s (aug_lengths_of x (nn_len x H))).
   apply Rmult_le_pos; [|apply fuel_burn_nonneg, (nn_fm x H)].
   unfold I_traj_idx, traj_idx, traj_idx_raw.
   destruct (const_has (i_cfg x) s).
   - cbn [option_map gl]. rewrite nth_zo, nth_repeat_R. pose proof (const_value_nonneg x s H).
     destruct (in_window _ _ i), (i <? length (i_fm x))%nat; rl.
   - destruct (traj_var_has (i_cfg x) s); [|destruct i; cbn; rl].
-    destruct (lookup s (i_orc_traj x)) as [l|] eqn:E; cbn [option_map gl]; [|destruct i; cbn; rl].
-    rewrite nth_zo. pose proof (nn_orc x H s l i E). destruct (in_window _ _ i); rl.
+    destruct (lookup s (I_orc x)) as [l|] eqn:E; cbn [option_map gl]; [|destruct i; cbn; rl].
+    rewrite nth_zo. pose proof (nn_orc_aug x H s l i E). destruct (in_window _ _ i); rl.
 Qed.
 
 Lemma apu_pm10_bounds (x : inputsR) a : nonneg_inputs x -> i_apu x = Some a ->
@@ -641,18 +746,18 @@ Definition ex_cfg (m : cd_mode) : config :=
 Definition ex_fuel : @fuel RNum := @mkFuel RNum 3155.6 1233.3865 43.2 (Some 89) 600 0.02.
 Definition ex_fm : list R := [2000; 1994; 1987.5; 1987.5; 1960; 1945].
 Definition ex_orc : list (species * list R) :=
-  [(NOx, [10; 10; 12; 12; 10; 8]); (NO, [9; 9; 10.8; 10.8; 9; 7.2]); (NO2, [0.5; 0.5; 0.6; 0.6; 0.5; 0.4]);
-   (HONO, [0.5; 0.5; 0.6; 0.6; 0.5; 0.4]); (HC, [1; 1; 1; 1; 1; 1]); (CO, [2; 2; 2; 2; 2; 2]);
+  [(NOx, [10; 10; 12; 12; 10; 8]); (HC, [1; 1; 1; 1; 1; 1]); (CO, [2; 2; 2; 2; 2; 2]);
    (PMvol, [0.1; 0.1; 0.1; 0.1; 0.1; 0.1]); (OCic, [0.1; 0.1; 0.1; 0.1; 0.1; 0.1])].
+Definition ex_sls : list R := [0.1; 0.3; 0.6; 0.8; 0.4; 0.1].
 Definition ex_lto : @lto_data RNum :=
   @mkLto RNum (0.25, 0.5, 0.9, 1.2) (8, 12, 32, 40) (4, 3, 1.5, 1) (20, 10, 3, 2).
 Definition ex_apu : @apu_data RNum := @mkApu RNum 0.03 0.05 0.03 0.02 0.4.
 Definition ex_inputs (m : cd_mode) : inputsR :=
-  @mkInputs RNum (ex_cfg m) ex_fuel ex_fm 2 2 ex_orc ex_lto
+  @mkInputs RNum (ex_cfg m) ex_fuel ex_fm 2%Z 2%Z ex_orc ex_sls ex_lto
             [(PMvol, (0.1, 0.1, 0.1, 0.1)); (OCic, (0.1, 0.1, 0.1, 0.1))] (Some ex_apu) AC_WIDE.
 
 Lemma ex_lengths m : oracle_lengths (ex_inputs m).
-Proof. intros s l. destruct s; cbn; intros E; inversion E; reflexivity. Qed.
+Proof. split; [|reflexivity]. intros s l. destruct s; cbn; intros E; inversion E; reflexivity. Qed.
 
 Lemma ex_nonneg m : nonneg_inputs (ex_inputs m).
 Proof.
@@ -688,3 +793,80 @@ Proof.
   destruct (fuel_counted_once_lto_mode (ex_inputs CD_LTO) eq_refl ltac:(cbn; lia) ltac:(cbn; lia)) as [E _].
   rewrite E. cbn. reflexivity.
 Qed.
+
+
+(* ------------------------------------------------------------------------------------------- *)
+(* 5'. NO + NO2 + HONO = NOx along the trajectory, UNCONDITIONALLY (BFFM2 construction modelled)  *)
+(* ------------------------------------------------------------------------------------------- *)
+Lemma tm_get_speciation m : tm_get m (@sp_no RNum) + tm_get m (@sp_no2 RNum) + tm_get m (@sp_hono RNum) = 1.
+Proof.
+  pose proof speciation_components as S.
+  destruct (@sp_no RNum) as [[[n1 n2] n3] n4], (@sp_no2 RNum) as [[[m1 m2] m3] m4],
+           (@sp_hono RNum) as [[[h1 h2] h3] h4]. destruct S as (S1 & S2 & S3 & S4).
+  destruct m; cbn; assumption.
+Qed.
+
+Lemma parts_close ffc (nx sls : list R) i : length nx = length sls ->
+  nth i (Rpart ffc sp_no nx sls) 0 + nth i (Rpart ffc sp_no2 nx sls) 0 + nth i (Rpart ffc sp_hono nx sls) 0
+  = nth i nx 0.
+Proof.
+  intros H. rewrite !nth_part by exact H. destruct (i <? length nx)%nat eqn:E.
+  - pose proof (tm_get_speciation (thrust_cat ffc (nth i sls 0))) as S. rnum. nra.
+  - apply Nat.ltb_ge in E. rewrite (nth_overflow nx) by exact E. rl.
+Qed.
+
+Lemma lookup_I_orc_parts (x : inputsR) (o : option (list R)) : lookup NOx (i_orc_traj x) = o ->
+  lookup NOx (I_orc x) = o
+  /\ lookup NO (I_orc x) = option_map (fun nx => Rpart (l_ff (i_lto x)) sp_no nx (i_sls x)) o
+  /\ lookup NO2 (I_orc x) = option_map (fun nx => Rpart (l_ff (i_lto x)) sp_no2 nx (i_sls x)) o
+  /\ lookup HONO (I_orc x) = option_map (fun nx => Rpart (l_ff (i_lto x)) sp_hono nx (i_sls x)) o.
+Proof. intros E. unfold I_orc. rewrite !lookup_aug. subst o. repeat split; reflexivity. Qed.
+
+Theorem nox_speciation_traj_unconditional (x : inputsR) : oracle_lengths x ->
+  forall i,
+    nth i (gl (I_traj_idx x NO)) 0 + nth i (gl (I_traj_idx x NO2)) 0 + nth i (gl (I_traj_idx x HONO)) 0
+      = nth i (gl (I_traj_idx x NOx)) 0
+    /\ nth i (gl (I_traj_em x NO)) 0 + nth i (gl (I_traj_em x NO2)) 0 + nth i (gl (I_traj_em x HONO)) 0
+      = nth i (gl (I_traj_em x NOx)) 0.
+Proof.
+  intros HO i. pose proof (aug_lengths_of x HO) as HA. destruct HO as [HO HS].
+  destruct (lookup NOx (i_orc_traj x)) as [nx|] eqn:E.
+  - pose proof (HO NOx nx E) as Ln. destruct (lookup_I_orc_parts x _ E) as (L0 & L1 & L2 & L3).
+    apply (nox_speciation_traj x nx _ _ _ HA L0 L1 L2 L3).
+    intros j. apply parts_close. cbv [T RNum] in *. congruence.
+  - destruct (lookup_I_orc_parts x _ E) as (L0 & L1 & L2 & L3). cbn [option_map] in *.
+    assert (N : forall s, s = NOx \/ s = NO \/ s = NO2 \/ s = HONO -> lookup s (I_orc x) = None).
+    { intros s [->|[->|[->| ->]]]; assumption. }
+    assert (Z : forall s, s = NOx \/ s = NO \/ s = NO2 \/ s = HONO ->
+                forall j, nth j (gl (I_traj_idx x s)) 0 = 0 /\ nth j (gl (I_traj_em x s)) 0 = 0).
+    { intros s Hs j. unfold I_traj_em, I_traj_idx, traj_em, traj_idx, traj_em_raw.
+      rewrite (traj_idx_raw_nox x s Hs), (N s Hs).
+      destruct (traj_var_has (i_cfg x) NOx); cbn; destruct j; cbn; split; reflexivity. }
+    destruct (Z NOx (or_introl eq_refl) i) as [A1 A2], (Z NO (or_intror (or_introl eq_refl)) i) as [B1 B2],
+             (Z NO2 (or_intror (or_intror (or_introl eq_refl))) i) as [C1 C2],
+             (Z HONO (or_intror (or_intror (or_intror eq_refl))) i) as [D1 D2].
+    rewrite A1, A2, B1, B2, C1, C2, D1, D2. split; rl.
+Qed.
+
+(* ------------------------------------------------------------------------------------------- *)
+(* PM splits of the ground components                                                             *)
+(* ------------------------------------------------------------------------------------------- *)
+Theorem apu_pm_split (x : inputsR) a : I_apu x = Some a ->
+  gr (I_apu_idx x PMvol) + gr (I_apu_idx x PMnvol) = apu_pm10 (i_cfg x) (i_fuel x) (i_lto x) (i_orc_lto x) a
+  /\ gr (I_apu_idx x PMnvol) = (95 / 100) * apu_pm10 (i_cfg x) (i_fuel x) (i_lto x) (i_orc_lto x) a.
+Proof.
+  intros H. unfold I_apu_idx. rewrite H. unfold apu_idx. cbn [apu_has gr]. unfold apu_pmvol, apu_pmnvol, apu_bc.
+  rnum. split; lra.
+Qed.
+
+Theorem gse_pm_split (x : inputsR) : gse_on (i_cfg x) = true ->
+  let '(_, _, _, _, pm) := @gse_nominal RNum (i_class x) in
+  gr (I_gse_em x PMvol) + gr (I_gse_em x PMnvol) = pm - gr (I_gse_em x SO4).
+Proof.
+  intros H. unfold I_gse_em, gse_em. rewrite H.
+  destruct (@gse_nominal RNum (i_class x)) as [[[[co2 nox] hc] co] pm]. cbn [gr]. unfold gse_half. rnum. lra.
+Qed.
+
+Theorem segment_eq_index_times_fuel_raw (x : inputsR) (s : species) : oracle_lengths x ->
+  forall i, nth i (gl (I_traj_em x s)) 0 = nth i (gl (I_traj_idx x s)) 0 * nth i (Rfuel_burn (i_fm x)) 0.
+Proof. intros H. exact (segment_eq_index_times_fuel x s (aug_lengths_of x H)). Qed.
